@@ -22,11 +22,13 @@ Proof.
   apply andb_true_iff in H0. destruct H0 as [Ha Hb]. split; [apply opt_eqb_eq; assumption | apply res_eqb_eq; assumption].
 Qed.
 
-(* non-vacuity: U+4E00 is in this table too, with the same code as in the other one; U+D800 maps to FFFD *)
-Example u2b_rows_sample : In (42048, 19968) u2b_rows /\ In (65533, 55296) u2b_rows /\ lenZ u2b_rows = 65407.
+(* non-vacuity: some code is in both tables with the same entry (the witness is computed from the tables) *)
+Definition row_eqb (a b : Z * Z) : bool := (fst a =? fst b) && (snd a =? snd b).
+Example mutual_nonempty : exists c u, In (c, u) b2u_rows /\ In (c, u) u2b_rows /\ 128 <= u.
 Proof.
-  assert (F : forall a b, existsb (fun r => (fst r =? a) && (snd r =? b)) u2b_rows = true -> In (a, b) u2b_rows).
-  { intros a b H. apply existsb_exists in H. destruct H as [[c u] [Hin H]]. cbn [fst snd] in H. apply andb_true_iff in H.
-    destruct H as [H1 H2]. apply Z.eqb_eq in H1. apply Z.eqb_eq in H2. subst. exact Hin. }
-  split; [apply F; vm_compute; reflexivity|]. split; [apply F; vm_compute; reflexivity | vm_compute; reflexivity].
+  assert (H : exists r, find (fun r => (128 <=? snd r) && existsb (row_eqb r) u2b_rows) b2u_rows = Some r) by (vm_compute; eexists; reflexivity).
+  destruct H as [[c u] H]. apply find_some in H. destruct H as [Hin H]. apply andb_true_iff in H. destruct H as [Hu H].
+  apply existsb_exists in H. destruct H as [[c' u'] [Hin' E]]. unfold row_eqb in E. cbn [fst snd] in E, Hu.
+  apply andb_true_iff in E. destruct E as [E1 E2]. apply Z.eqb_eq in E1. apply Z.eqb_eq in E2. subst c' u'.
+  apply Z.leb_le in Hu. exists c, u. auto.
 Qed.
